@@ -87,6 +87,17 @@ func (d *trigDest) WriteLevel(l zerolog.Level, p []byte) (int, error) {
 	return len(p), nil
 }
 
+// the syslog writers know the levels Trace..NoLevel only (anything else is a programming error there)
+func trigSyslogLevels(ops []json.RawMessage) bool {
+	for _, raw := range ops {
+		var op trigOp
+		if json.Unmarshal(raw, &op) != nil || (op.A == "W" && (op.L < -1 || op.L > 6)) {
+			return false
+		}
+	}
+	return true
+}
+
 func (f *trigFam) play(l *Line, out *rec) error {
 	c := f.confs[l.Conf]
 	if c == nil {
@@ -98,6 +109,11 @@ func (f *trigFam) play(l *Line, out *rec) error {
 	plain := h%4 == 1 && !trigHung
 	if plain {
 		dw = plainTrigDest{d}
+	}
+	if h%4 == 3 && trigSyslogLevels(l.Ops) {
+		// the destination is a fan-out: a syslog level writer (which has no severity for Trace and forwards nothing then) next to
+		// the recording destination. Whatever one destination does with a line, the other receives every released line
+		dw = zerolog.MultiLevelWriter(zerolog.SyslogLevelWriter(&mockSyslog{}), d)
 	}
 	w := &zerolog.TriggerLevelWriter{Writer: dw, ConditionalLevel: zerolog.Level(c.Cond), TriggerLevel: zerolog.Level(c.Trig)}
 	out.emit(map[string]interface{}{"a": "Reset", "conf": c.Name, "id": l.ID, "plain": plain})
